@@ -18,9 +18,9 @@ STEP_BUDGET = 400_000
 
 CANDS = {
     "os_name": ["a", "b", "ab", "c"],
-    "sys_platform": ["a", "b", "c"],
+    "sys_platform": ["a", "b", "ab"],
     "extra": [frozenset(), frozenset({"e1"}), frozenset({"e2"}), frozenset({"e1", "e2"})],
-    "python_full_version": ["3.6.5", "3.7.0", "3.7.2", "3.7.5", "3.8.0", "3.8.1", "3.9.0", "3.10.1"],
+    "python_full_version": ["3.0.4", "3.6.5", "3.7.0", "3.7.2", "3.7.5", "3.8.0", "3.8.1", "3.9.0", "3.10.1"],
 }
 
 
